@@ -18,14 +18,14 @@ if [ "$REPO" != "/repo" ]; then
   CFG=(--config "paths=['$REPO/jmespath']")
   TD="$REPO/.jmv-target"
 fi
+mkdir -p "$TD"
+export JMV_TMP="$TD/tmp"
 
-build_variant() { # name, cargo toolchain arg, features
+build_variant() { # name, toolchain ("" or +nightly), features
   local name=$1 tc=$2 feats=$3
   local log="$TD/build-$name.log"
-  mkdir -p "$TD"
-  ( cd "$V/harness" && cargo $tc build --release --offline --target-dir "$TD/$name" ${feats:+--features "$feats"} "${CFG[@]}" ) >"$log" 2>&1
-  local rc=$?
-  if [ $rc -ne 0 ]; then
+  ( cd "$V/harness" && cargo $tc build --release --offline --bin check --target-dir "$TD/$name" ${feats:+--features "$feats"} "${CFG[@]}" ) >"$log" 2>&1
+  if [ $? -ne 0 ]; then
     echo "BUILD-FAILED variant=$name (see $log)" >&2
     grep -E "^error" -A 8 "$log" | head -60 >&2
     return 2
@@ -33,26 +33,119 @@ build_variant() { # name, cargo toolchain arg, features
   return 0
 }
 
+build_jp() {
+  local d="$TD/jpbuild-src"
+  mkdir -p "$d"
+  cat > "$d/Cargo.toml" <<TOML
+# Wrapper manifest: compiles the working-tree source of the CLI unchanged.
+# (The CLI's own Cargo.lock pins crate versions that are not in the offline cache.)
+[package]
+name = "jmespath-cli"
+version = "0.3.0"
+edition = "2018"
+
+[[bin]]
+name = "jp"
+path = "$REPO/jmespath-cli/src/main.rs"
+
+[dependencies]
+serde = "1"
+serde_json = "1"
+clap = "2.33"
+jmespath = { path = "$REPO/jmespath" }
+
+[workspace]
+TOML
+  [ -f "$d/Cargo.lock" ] || cp "$V/jpbuild/Cargo.lock" "$d/Cargo.lock" 2>/dev/null
+  local log="$TD/build-jp.log"
+  ( cd "$d" && cargo build --release --offline --target-dir "$TD/cli" ) >"$log" 2>&1
+  if [ $? -ne 0 ]; then
+    echo "BUILD-FAILED variant=jp (see $log)" >&2
+    grep -E "^error" -A 8 "$log" | head -40 >&2
+    return 2
+  fi
+  export JMV_JP="$TD/cli/release/jp"
+  return 0
+}
+
+build_sendsync() {
+  local d="$TD/sendsync-src"
+  mkdir -p "$d/src"
+  cp "$V/sendsync/src/lib.rs" "$d/src/lib.rs"
+  cp "$V/sendsync/Cargo.lock" "$d/Cargo.lock" 2>/dev/null
+  sed "s#/repo/jmespath#$REPO/jmespath#" "$V/sendsync/Cargo.toml" > "$d/Cargo.toml"
+  local log="$TD/build-sendsync.log"
+  ( cd "$d" && cargo build --offline --target-dir "$TD/sendsync" ) >"$log" 2>&1
+  if [ $? -eq 0 ]; then
+    export JMV_SENDSYNC=ok
+  else
+    # the library itself built with `sync` (the harness variant did), so this is the obligation failing
+    export JMV_SENDSYNC="$(grep -E '^error' -A 12 "$log" | head -60)"
+    [ -n "$JMV_SENDSYNC" ] || export JMV_SENDSYNC="build failed, see $log"
+  fi
+  return 0
+}
+
+build_tsan() {
+  local log="$TD/build-tsan.log"
+  ( cd "$V/harness" && RUSTFLAGS="-Zsanitizer=thread" cargo +nightly build --release --offline --bin check --features sync \
+      -Zbuild-std --target x86_64-unknown-linux-gnu --target-dir "$TD/tsan" "${CFG[@]}" ) >"$log" 2>&1
+  if [ $? -eq 0 ]; then
+    export JMV_BIN_TSAN="$TD/tsan/x86_64-unknown-linux-gnu/release/check"
+  else
+    echo "note: ThreadSanitizer build failed (see $log); the tsan sub-check will be inconclusive" >&2
+  fi
+  return 0
+}
+
+build_for() { # property id
+  build_variant default "" "" || return 2
+  case "$1" in
+    C16) build_variant sync "" "sync" || return 2
+         build_sendsync
+         [ "${2:-quick}" = "thorough" ] && build_tsan ;;
+    C17) build_variant sync "" "sync" || return 2
+         build_variant spec "+nightly" "spec" || return 2
+         build_variant specsync "+nightly" "spec,sync" || return 2 ;;
+    C18) build_jp || return 2 ;;
+    all) build_variant sync "" "sync" || return 2
+         build_sendsync
+         build_variant spec "+nightly" "spec" || return 2
+         build_variant specsync "+nightly" "spec,sync" || return 2
+         build_jp || return 2 ;;
+  esac
+  export JMV_BIN_DEFAULT="$TD/default/release/check"
+  export JMV_BIN_SYNC="$TD/sync/release/check"
+  export JMV_BIN_SPEC="$TD/spec/release/check"
+  export JMV_BIN_SPECSYNC="$TD/specsync/release/check"
+  return 0
+}
+
 cmd=${1:-}
 case "$cmd" in
   setup)
-    build_variant default "" "" || exit 2
+    build_for all || exit 2
     "$TD/default/release/check" selftest || exit 2
     exit 0
     ;;
   selftest)
-    build_variant default "" "" || exit 2
+    build_for none || exit 2
     exec "$TD/default/release/check" selftest
     ;;
   replay)
-    build_variant default "" "" || exit 2
-    exec "$TD/default/release/check" replay "$2"
+    prop=$(python3 -c "import json,sys; print(json.load(open(sys.argv[1]))['property'])" "$2" 2>/dev/null || echo none)
+    build_for "$prop" || exit 2
+    bin="$TD/default/release/check"
+    [ "$prop" = "C16" ] && bin="$TD/sync/release/check"
+    exec "$bin" replay "$2"
     ;;
   C[0-9][0-9])
     tier=${2:-quick}
-    build_variant default "" "" || exit 2
+    build_for "$cmd" "$tier" || exit 2
     export VERIF_TIER=$tier
-    exec "$TD/default/release/check" "$cmd" --tier "$tier"
+    bin="$TD/default/release/check"
+    [ "$cmd" = "C16" ] && bin="$TD/sync/release/check"
+    exec "$bin" "$cmd" --tier "$tier"
     ;;
   *)
     echo "usage: run.sh setup | <Cxx> quick|thorough | replay <file> | selftest" >&2
